@@ -202,6 +202,8 @@ def check_reset_during_delivery(spec):
             for n in old_chunks:
                 seg.receive(old_stream[p:p + n])
                 p += n
+                if st["reset_at"] is not None:
+                    break           # the old connection is gone: none of its bytes arrive after the new one is announced
             if st["reset_at"] is None:
                 break               # this old chunking never delivered frame k: nothing to check
             mark = len(top.got)
